@@ -104,19 +104,21 @@ static DenseMatrix weight_matrix(const std::string& meth, Idx& idx, const tapkee
     return DenseMatrix(W);
 }
 
-static bool plausible(const tapkee_internal::Neighbors& nb, int n)
+static bool plausible(const tapkee_internal::Neighbors& nb, int n, const std::string& meth, int d)
 {
     // the routines index begin[] and the k x k buffers without any check: refuse inputs on which
-    // the C++ has undefined behaviour by construction of the CASE (the model reports them as OOB)
+    // the C++ has undefined behaviour by construction of the CASE (the model reports them as OOB):
+    // empty container, a list shorter than the first, an index outside [0,n), rightCols(d) with d > k
     if (nb.empty()) return false;
     const size_t k = nb[0].size();
-    if (k == 0) return false;
+    if (k == 0) return false;   // degenerate request, not generated
     for (const auto& l : nb)
     {
         if (l.size() < k) return false;
-        for (auto v : l)
-            if (v < 0 || v >= n) return false;
+        for (size_t j = 0; j < k; j++)
+            if (l[j] < 0 || l[j] >= n) return false;
     }
+    if (meth != "lle" && (d < 0 || static_cast<size_t>(d) > k)) return false;
     return true;
 }
 
@@ -147,7 +149,7 @@ int main()
                     std::cout << "X " << kcase << " bad-input" << std::endl;
                     return;
                 }
-                if (!plausible(nb, n))
+                if (!plausible(nb, n, meth, d))
                 {
                     std::cout << "X " << kcase << " undefined-by-construction" << std::endl;
                     return;
@@ -199,7 +201,7 @@ int main()
                     tapkee_internal::KernelDistance<Idx::iterator, table_kernel> kd(kcb);
                     tapkee_internal::Neighbors nb = tapkee_internal::find_neighbors(
                         nmeth, idx.begin(), idx.end(), kd, static_cast<IndexType>(k), true);
-                    if (plausible(nb, n))
+                    if (plausible(nb, n, meth, d))
                     {
                         const int kk = nb[0].size();
                         DenseMatrix NB(n, kk);
